@@ -44,3 +44,12 @@ def relonce(run, P):
 def outbound(run, P):
     from rules import r_outbound
     r_outbound.run(run, P)
+def ssn(run, P):
+    from rules import r_ssn
+    r_ssn.run(run, P)
+def lockowner(run, P):
+    from rules import r_lockimpl
+    r_lockimpl.run(run, P)
+def teardown(run, P):
+    from rules import r_session
+    r_session.run_teardown(run, P)
